@@ -1182,3 +1182,7 @@ PROPS["C18"] = {
 
 # ---------------------------------------------------------------- U52 extension: apply writes land in the slot the record names
 PROPS["C13"]["claim"] = PROPS["C13"]["claim"] + " Every write of ValueTable::enact_plan starts at the byte offset of the slot the record names (header records at offset 0) and takes its bytes from the front of the entry buffer the record was read into (Verus, fragment)."
+
+# ---------------------------------------------------------------- U61 also serves C16 (an I/O error in the middle of log reclamation)
+PROPS["C16"]["kani_units"] = list(PROPS["C16"]["kani_units"]) + ["U61"]
+PROPS["C16"]["claim"] = PROPS["C16"]["claim"] + " An I/O error in the middle of log reclamation (Kani, bounded: Log::clean_logs with fsync failing at an arbitrary call) leaves a suffix of the enacted log files on disk -- the files emptied so far are the oldest ones -- so the reopen replays no older record over a newer state."
